@@ -121,4 +121,4 @@ impl<T> fmt::Debug for JoinHandle<T> {
 
 #[cfg(kani)]
 #[path = "/verif/harness/may/join.rs"]
-mod verif_kani;
+pub(crate) mod verif_kani;
